@@ -7,6 +7,7 @@ changed row, digit or name makes a `decide` fail and the failing row is the repl
 -/
 import Circomspect.Model.Curve
 import Circomspect.Lemmas.LessThanLemmas
+import Circomspect.Lemmas.DomCheck
 
 namespace Circomspect.C11
 open Circomspect.Gen Circomspect.Curve
@@ -209,13 +210,25 @@ example : rangeChecked .bn254 252 = true ∧ rangeChecked .bn254 253 = false := 
 
 /-- an expression is reported exactly when some assignment of it to an input of `LessThan` is not covered by a component that
     counts as `Num2Bits(k)` with a known `k` passing the threshold of the curve (`C11_lessthan`: 2^k − 1 ≤ p/2) and has the same
-    expression as its input — in the same basic block if the expression reads a local variable (fix 2b59069: `x[i]` after a loop is
-    another element than `x[i]` in its body; an expression over signals has one value in the whole template) -/
-theorem C11_lessthan_reported (c : Curve) (ss : List LessThanPass.Stmt) (t : String) :
-    t ∈ LessThanPass.reported c ss ↔ ∃ v b, LessThanPass.Input.lessThan v b ∈ LessThanPass.inputs ss ∧ v.1 = t ∧
+    expression as its input — in a basic block that dominates the comparison if the expression reads a local variable (fix 2b59069:
+    `x[i]` after a loop is another element than `x[i]` in its body; an expression over signals and parameters has one value in
+    the whole template) -/
+theorem C11_lessthan_reported (c : Curve) (dom : Nat → Nat → Bool) (ss : List LessThanPass.Stmt) (t : String) :
+    t ∈ LessThanPass.reported c dom ss ↔ ∃ v b, LessThanPass.Input.lessThan v b ∈ LessThanPass.inputs ss ∧ v.1 = t ∧
       ¬ ∃ w k b2, LessThanPass.Input.num2bits w (some k) b2 ∈ LessThanPass.inputs ss ∧ w.1 = v.1 ∧ rangeChecked c k = true ∧
-        (v.2 = true ∨ b2 = b) :=
-  LessThanPass.mem_reported c ss t
+        (v.2 = true ∨ dom b2 b = true) :=
+  LessThanPass.mem_reported c dom ss t
+
+/-- why a check in a dominating block is a check of the same value: let the expression read variables defined in the blocks `ds`
+    — in SSA form each of them dominates the block `b1` that evaluates the expression for the range check (C14) — and let `b1`
+    dominate the block `b2` of the comparison. Then every execution path to `b2` visits `b1`, and after its last visit of `b1` it
+    visits none of the defining blocks again (other than `b1` itself, whose definitions precede the check or are the loop-header
+    phis evaluated on entering it): every variable of the expression still has the value that was range checked. -/
+theorem C11_dominating_check (g : Graph.Graph) (ds : List Nat) (b1 b2 : Nat)
+    (hdefs : ∀ d ∈ ds, Graph.Dom g d b1) (hdom : Graph.Dom g b1 b2) (π : List Nat) (hπ : Graph.Path g b2 π) :
+    ∃ front back, π = front ++ b1 :: back ∧ b1 ∉ front ∧ ∀ d ∈ ds, d ≠ b1 → d ∉ front := by
+  obtain ⟨front, back, e, hf, hd⟩ := DomCheck.no_redefinition hdom hπ
+  exact ⟨front, back, e, hf, fun d hdm hne => hd d (hdefs d hdm) hne⟩
 
 /-- … a component counts as `Num2Bits` of some size only if every instantiation that may be this component is a `Num2Bits` of
     that size ("counts as range-checked by `Num2Bits(k)` only if") … -/
@@ -241,7 +254,7 @@ theorem C11_lessthan_candidates (a b : LessThanPass.Key) (hn : a.name = b.name) 
 
 /-- non-vacuity: `nb[i] = Num2Bits(8)` in a loop, `nb[2] = Num2Bits(254)`, `nb[i].in <== a` after the loop, `rb = Num2Bits(8)`,
     `rb.in <== b`, `lt.in[0] <== a; lt.in[1] <== b`: `a` is reported (the component it feeds may be the wide one), `b` is not -/
-example : LessThanPass.reported .bn254
+example : LessThanPass.reported .bn254 (LessThanPass.domOf [(3, [0, 1, 3]), (2, [0, 1, 2])])
     [.inst ⟨"lt", "lt", []⟩ .lessThan, .inst ⟨"nb[i.1]", "nb", [.idx none]⟩ (.num2bits (some 8) "8"),
      .inst ⟨"nb[2]", "nb", [.idx (some "f2")]⟩ (.num2bits (some 254) "254"), .inst ⟨"rb", "rb", []⟩ (.num2bits (some 8) "8"),
      .input ⟨"nb[i.1]", "nb", [.idx none]⟩ "in" false ("a", true) none 3, .input ⟨"rb", "rb", []⟩ "in" false ("b", true) none 3,
@@ -249,21 +262,37 @@ example : LessThanPass.reported .bn254
   decide
 
 /-- non-vacuity: `c` is `LessThan` on one branch and another template on the other: both inputs are reported -/
-example : LessThanPass.reported .bn254
+example : LessThanPass.reported .bn254 (LessThanPass.domOf [(3, [0, 1, 3]), (2, [0, 1, 2])])
     [.inst ⟨"c", "c", []⟩ .lessThan, .inst ⟨"c", "c", []⟩ .unknown,
      .input ⟨"c", "c", []⟩ "in" true ("a", true) none 0, .input ⟨"c", "c", []⟩ "in" true ("b", true) none 0] = ["a", "b"] := by
   decide
 
 /-- non-vacuity: `nb[i].in <== x[i]` in the loop body (block 2), `lt.in[0] <== x[i]` after the loop (block 3): the expression `x[i]`
     reads the local `i`, the range check is in another block, so it is reported; checked and compared in one block it is not -/
-example : LessThanPass.reported .bn254
+example : LessThanPass.reported .bn254 (LessThanPass.domOf [(3, [0, 1, 3]), (2, [0, 1, 2])])
     [.inst ⟨"lt", "lt", []⟩ .lessThan, .inst ⟨"nb[i.1]", "nb", [.idx none]⟩ (.num2bits (some 8) "8"),
      .input ⟨"nb[i.1]", "nb", [.idx none]⟩ "in" false ("x[i.1]", false) none 2,
      .input ⟨"lt", "lt", []⟩ "in" true ("x[i.1]", false) none 3] = ["x[i.1]"] ∧
-  LessThanPass.reported .bn254
+  LessThanPass.reported .bn254 (LessThanPass.domOf [(3, [0, 1, 3]), (2, [0, 1, 2])])
     [.inst ⟨"lt", "lt", []⟩ .lessThan, .inst ⟨"nb[i.1]", "nb", [.idx none]⟩ (.num2bits (some 8) "8"),
      .input ⟨"nb[i.1]", "nb", [.idx none]⟩ "in" false ("x[i.1]", false) none 2,
      .input ⟨"lt", "lt", []⟩ "in" true ("x[i.1]", false) none 2] = [] := by
   decide
+
+/-- non-vacuity: `rc.in <== total` in the entry block (0), `lt[i].in[0] <== total` in a loop body (block 2, dominated by 0 and 1): the
+    check counts; with the check in the loop body and the comparison after the loop (block 3) it does not -/
+example : LessThanPass.reported .bn254 (LessThanPass.domOf [(3, [0, 1, 3]), (2, [0, 1, 2])])
+    [.inst ⟨"lt[i.1]", "lt", [.idx none]⟩ .lessThan, .inst ⟨"rc", "rc", []⟩ (.num2bits (some 64) "64"),
+     .input ⟨"rc", "rc", []⟩ "in" false ("total.0", false) none 0,
+     .input ⟨"lt[i.1]", "lt", [.idx none]⟩ "in" true ("total.0", false) none 2] = [] ∧
+  LessThanPass.reported .bn254 (LessThanPass.domOf [(3, [0, 1, 3]), (2, [0, 1, 2])])
+    [.inst ⟨"lt", "lt", []⟩ .lessThan, .inst ⟨"rc", "rc", []⟩ (.num2bits (some 64) "64"),
+     .input ⟨"rc", "rc", []⟩ "in" false ("total.0", false) none 2,
+     .input ⟨"lt", "lt", []⟩ "in" true ("total.0", false) none 3] = ["total.0"] := by
+  decide
+
+/-- non-vacuity of `C11_dominating_check`: entry 0, loop header 1, body 2, exit 3 -/
+example : Graph.Dom ⟨4, fun i => if i = 1 then [0, 2] else if i = 2 then [1] else if i = 3 then [1] else []⟩ 0 0 :=
+  DominatorLemmas.dom_refl _ 0
 
 end Circomspect.C11
